@@ -56,6 +56,101 @@ def to_string(c):
     return s
 
 
+PORTS = ["80", "443", "8080", "1"]
+T_PATHS = dict(PATHS, p_sp="/a b")
+
+
+def edit_chains(ctx):
+    """code -> spec: chains of replace() calls, every result fed into the next call; each call logged at its return with the observed
+    components (as tokens of Url.tla) and judged by TLC: TReplaced on what was observed (violation), Replace() itself (drift)"""
+    import random
+    from baize.datastructures import URL
+    from .. import tracecheck
+    wd = tlc.workdir_for("c18trace")
+    rnd = random.Random(500 + ctx.seed)
+    n_tr, n_ed = (300, 25) if ctx.tier == "quick" else (3000, 60)
+    pal = {"scheme": {x: x for x in ("http", "https", "ws", "wss")}, "user": dict(USERS, none=None), "password": dict(PWS, none=None), "host": HOSTS,
+           "port": dict({x: int(x) for x in PORTS}, none=None), "path": T_PATHS, "query": QUERIES, "fragment": FRAGS}
+    inv = {k: {(str(v) if v is not None else NONE): t for t, v in m.items()} for k, m in pal.items()}
+    inv["path"] = {urllib.parse.quote(v, safe="/%"): t for t, v in T_PATHS.items()}
+    inv["path"].update({v: t for t, v in T_PATHS.items()})
+
+    def tokens(u):
+        c = comp(u)
+        return {k: inv[k].get(v, "?" + v) for k, v in c.items()}
+
+    traces, texts = [], []
+    for _ in range(n_tr):
+        base = {"scheme": rnd.choice(["http", "https", "ws", "wss"]), "user": rnd.choice(list(USERS) + [NONE, NONE]), "host": rnd.choice(list(HOSTS)),
+                "port": rnd.choice(PORTS + [NONE, NONE]), "path": rnd.choice(list(T_PATHS)), "query": rnd.choice(list(QUERIES)), "fragment": rnd.choice(list(FRAGS))}
+        base["password"] = rnd.choice(list(PWS) + [NONE]) if base["user"] != NONE else NONE
+        text = to_string({"scheme": base["scheme"], "user": USERS.get(base["user"], NONE), "password": PWS.get(base["password"], NONE), "host": HOSTS[base["host"]],
+                          "port": base["port"], "path": T_PATHS[base["path"]], "query": QUERIES[base["query"]], "fragment": FRAGS[base["fragment"]]})
+        u = URL(text)
+        if tokens(u) != base:
+            raise common.MachineryError("harness cannot express %r: %s parsed as %r" % (base, text, tokens(u)))
+        events = []
+        for _ in range(n_ed):
+            ks = rnd.sample(sorted(pal), rnd.choice((1, 1, 2, 3)))
+            kw = {k: rnd.choice(sorted(pal[k])) for k in ks}
+            real = {{"user": "username", "host": "hostname"}.get(k, k): pal[k][t] for k, t in kw.items()}
+            if real.get("hostname", "").startswith("[") and rnd.random() < 0.5:
+                real["hostname"] = real["hostname"].strip("[]")       # an IPv6 host as `.hostname` reports it
+            case = {"start": text, "calls_before": len(events), "url": str(u), "replace": {k: v for k, v in real.items()}}
+            ctx.count()
+            try:
+                u = u.replace(**real)
+                out = tokens(u)
+                rep = repr(u)
+            except Exception as e:  # noqa
+                ctx.violation(case, "a URL", type(e).__name__ + ": " + str(e), "replace() raised %s in a chain of edits" % type(e).__name__)
+                break
+            if u.password and (":%s@" % u.password) in rep:
+                ctx.violation(case, "password masked", rep, "repr() of the URL contains its password")
+            events.append({"kw": kw, "out": out, "text": str(u)})
+            if "host" in kw or "user" in kw or "password" in kw or "port" in kw:
+                ctx.nontriv(("chain", len(traces), len(events)))
+        traces.append({"init": base, "events": events})
+        texts.append(text)
+    K = dict(Schemes=frozenset(), BuildSchemes=frozenset(), Hosts=frozenset(), Ports=frozenset(), Users=frozenset(), Passwords=frozenset(), Paths=frozenset(),
+             Queries=frozenset(), Fragments=frozenset(), HostHeaders=frozenset(), Roots=frozenset(), DefaultPort=frozenset(DEFAULTS), EditKeys=frozenset())
+    acc, rejected = tracecheck.validate(wd, "TraceUrl", traces, constants=dict(K, Strict=False), invariants=["TReplaced"])
+    ctx.traces_validated += acc
+    bad = set()
+    for tid, name, st in tracecheck.validate.last_invariant_failures:
+        bad.add(tid)
+        st = st if isinstance(st, dict) else {}
+        i = st.get("l", 2) - 2
+        e = traces[tid]["events"][i] if 0 <= i < len(traces[tid]["events"]) else {}
+        ctx.violation({"start": texts[tid], "calls_before": i, "url_before": st.get("url"), "replace": st.get("edit"), "source": "chain of edits"},
+                      "named components take the new values, the others stay", {"components": st.get("out"), "text": e.get("text")},
+                      "replace() in a chain of edits: named components do not have the new values / other components changed")
+    for tid, prefix in rejected:
+        if tid not in bad:
+            raise common.MachineryError("TraceUrl (observation mode) cannot follow chain %d at event %d" % (tid, prefix + 1))
+    good = [t for i, t in enumerate(traces) if i not in bad]
+    acc2, rej2 = tracecheck.validate(wd, "TraceUrl", good, constants=dict(K, Strict=True))
+    for tid, prefix in rej2:
+        t = good[tid]
+        ctx.drift_at({"init": t["init"], "calls_before": prefix}, "Replace() of Url.tla", t["events"][prefix] if prefix < len(t["events"]) else None,
+                     "chain of edits departs from Replace() of Url.tla at call %d" % (prefix + 1))
+    # binding self-test
+    import copy
+    fal = []
+    for t in [t for t in good if t["events"]][:10]:
+        t2 = copy.deepcopy(t)
+        i = len(t2["events"]) // 2
+        t2["events"][i]["out"]["fragment"] = "f1" if t2["events"][i]["out"]["fragment"] != "f1" else NONE
+        t2["events"] = t2["events"][:i + 1]
+        fal.append(t2)
+    if fal:
+        acc3, _ = tracecheck.validate(wd, "TraceUrl", fal, constants=dict(K, Strict=True))
+        if acc3:
+            raise common.MachineryError("binding self-test: %d falsified edit chains accepted by TraceUrl" % acc3)
+    ctx.notes.append("TraceUrl: %d chains of %d replace() calls validated (observation + strict), %d falsified ones rejected" % (len(traces), n_ed, len(fal)))
+    ctx.sample({"edit_chain_start": texts[0], "first_calls": [{"kw": e["kw"], "text": e["text"]} for e in traces[0]["events"][:3]]})
+
+
 def run(ctx):
     from baize.datastructures import URL
     thorough = ctx.tier == "thorough"
@@ -177,6 +272,7 @@ def run(ctx):
             ctx.nontriv(("edit", st["url"], st["edit"]))
         if n in (30, 3000):
             ctx.sample({"case": case, "result": str(r)})
+    edit_chains(ctx)
     # a host name as the URL itself reports it (IPv6 without brackets) can be given back to replace()
     for text in ("http://[::1]:8080/p?q=1#f", "https://u:pw@[2001:db8::2]/x", "http://example.com:8080/p", "ws://127.0.0.1/", "http://u@h:1/"):
         u = URL(text)
